@@ -149,12 +149,22 @@ def line_number_shape(ck, F):
                 n += 1
                 digit_true = False
                 for j, bb in enumerate(full[:-1]):
-                    c = b.call_at(bb)
-                    if c is not None and c.callee.endswith("is_ascii_digit") and c.target is not None:
-                        k = full.index(c.target, j) if c.target in full[j:] else None
-                        ft = bool_switch_true_target(b, c.target)
-                        if k is not None and ft and k + 1 < len(full) and full[k + 1] == ft[1]:
-                            digit_true = True
+                    # any bool test on this path whose subject is the result of is_ascii_digit (directly, negated, or after
+                    # being parked in a tuple / temporary): which arm does the path take?
+                    ft = bool_switch_true_target(b, bb)
+                    if ft is None or b.term(bb).get("dty") != "bool":
+                        continue
+                    subj = b.expr(b.term(bb)["discr"])
+                    if not any(x[1].endswith("is_ascii_digit") for x in expr_calls(subj)):
+                        continue
+                    neg = False
+                    se = strip_expr(subj)
+                    while se[0] == "unop" and se[1] == "Not":
+                        neg = not neg
+                        se = strip_expr(se[2])
+                    taken_true = full[j + 1] == ft[1]
+                    if taken_true != neg:
+                        digit_true = True
                 if not digit_true:
                     bad.append("blocks %s" % full)
     ck.require(n >= 1 and not bad, "C14:SHAPE:line-number-ends-at-first-non-digit", "listing shape",
